@@ -88,7 +88,7 @@ class Ctx:
 class InstrumentMachine(Machine):
     pid = "C16"
     title = "Instruments: settings follow parameters, calibration conserves the spectrum"
-    quick_runs = 4000
+    quick_runs = 16000
     thorough_runs = 600000
     components_real = ["cherab.tools.spectroscopy.* (pure Python)", "raysect.optical.Spectrum.integrate", "raysect pipelines"]
     components_stub = []
